@@ -1473,8 +1473,15 @@ func c03PlainFraming(c *Ctx) {
 // c03Rekey: a second pair-verify on a connection that is already encrypted (session σ1 → σ2) while a read is waiting:
 // the answer still goes out under σ1, what the controller sends afterwards under σ2 is decrypted with σ2.
 func c03Rekey(c *Ctx) {
-	for _, pending := range []bool{true, false} {
+	for mode := 0; mode < 3; mode++ {
+		// early: the controller's first frame under the new keys is read after the new cryptographer was negotiated and BEFORE
+		// the accessory's write of the answer has returned (the answer is on the wire, the writing goroutine has not got from
+		// the socket write to its bookkeeping yet)
+		pending, early := mode == 0, mode == 2
 		id := fmt.Sprintf("rekey#pending=%v", pending)
+		if early {
+			id = "rekey#early-frame"
+		}
 		if c.Skip(id) {
 			continue
 		}
@@ -1512,6 +1519,21 @@ func c03Rekey(c *Ctx) {
 		raw.mu.Lock()
 		raw.out = nil
 		raw.mu.Unlock()
+		request := []byte("GET /accessories HTTP/1.1\r\nHost: x\r\n\r\n")
+		if early {
+			raw.push(p2.Encrypt(request))
+			go read()
+			select {
+			case x := <-done:
+				if x.err != nil || !bytes.HasPrefix(request, x.b) || len(x.b) == 0 {
+					c.Violate("bytes sent by the controller under the newly negotiated session do not arrive decrypted (they were read before the write of the answer had returned)", id,
+						map[string]interface{}{"order": "second pair-verify negotiated; the controller's first frame under the new keys is read; then the write of the answer returns"},
+						string(request), fmt.Sprintf("%q err=%v", trunc(string(x.b), 40), x.err))
+				}
+			case <-time.After(4 * time.Second):
+				c.Violate("read on the connection does not return after bytes arrived", id, nil, "request bytes", "timeout")
+			}
+		}
 		answer := []byte("HTTP/1.1 200 OK\r\nContent-Length: 3\r\n\r\n\x06\x01\x04")
 		conn.Write(answer)
 		raw.mu.Lock()
@@ -1540,7 +1562,9 @@ func c03Rekey(c *Ctx) {
 			_, _, underOld := p1.DecryptFrames(wire2)
 			c.Violate("what the accessory writes after the answer to a second pair-verify is not sent under the newly negotiated session", id, in, "decrypts under the new session (frame counter 0)", fmt.Sprintf("%d bytes, ok=%v, decrypts under the old session: %v", len(pt), ok, underOld))
 		}
-		request := []byte("GET /accessories HTTP/1.1\r\nHost: x\r\n\r\n")
+		if early {
+			request = []byte("GET /characteristics?id=1.9 HTTP/1.1\r\nHost: x\r\n\r\n") // the second frame under the new keys
+		}
 		raw.push(p2.Encrypt(request))
 		if !pending {
 			go read()
